@@ -349,17 +349,23 @@ def _default_args(target, cls, ival, choice=0, force=(), depth=0):
     return out
 
 
-def accepts(desc):
-    """True when the instance can be built, encoded, asked for relocations and printed."""
+def encoding_of(desc):
+    """(bytes, relocation summary) of the instance, or None when ppci does not accept it (it
+    cannot be built, encoded, asked for relocations or printed)."""
     try:
         ins = build(desc)
-        emit_direct_parts(ins)
+        data, relocs = emit_direct_parts(ins)
         str(ins)
-        return True
+        return data, tuple((r.name, r.symbol_name, r.offset, r.addend) for r in relocs)
     except BuildError:
         raise
     except Exception:
-        return False
+        return None
+
+
+def accepts(desc):
+    """True when the instance can be built, encoded, asked for relocations and printed."""
+    return encoding_of(desc) is not None
 
 
 def emit_direct_parts(ins):
@@ -430,13 +436,12 @@ def base_desc(target, cid, path=()):
 
 
 @functools.lru_cache(maxsize=None)
-def probe(target, cid):
-    """{path: sorted tuple of accepted candidate values} for every int leaf of the class."""
+def _probe_full(target, cid):
     cls = class_by_id(target, cid)
     res = {}
     cap = value_cap(cls)
     for path in int_paths(cls):
-        acc = set()
+        acc = {}
         b = base_desc(target, cid, path)
         if b is not None and get_at(b["args"], path) is not None:
             for v in CANDIDATES:
@@ -444,12 +449,35 @@ def probe(target, cid):
                     continue
                 d = dict(b, args=set_at(b["args"], path, v))
                 try:
-                    if accepts(d):
-                        acc.add(v)
+                    e = encoding_of(d)
                 except BuildError:
-                    pass
-        res[path] = tuple(sorted(acc))
+                    e = None
+                if e is not None:
+                    acc[v] = e
+        res[path] = acc
     return res
+
+
+@functools.lru_cache(maxsize=None)
+def probe(target, cid):
+    """{path: sorted tuple of accepted candidate values} for every int leaf of the class."""
+    return {p: tuple(sorted(acc)) for p, acc in _probe_full(target, cid).items()}
+
+
+@functools.lru_cache(maxsize=None)
+def probe_reps(target, cid):
+    """{path: sorted tuple of representatives}: the accepted candidates grouped by the encoding
+    they produce (other operands fixed), one value per group -- the one of smallest magnitude,
+    the non-negative one on a tie.  Two candidates in one group are aliases of each other (a
+    C10 matter); the representatives of an n-bit field are its signed range."""
+    out = {}
+    for p, acc in _probe_full(target, cid).items():
+        groups = {}
+        for v, e in acc.items():
+            groups.setdefault(e, []).append(v)
+        reps = [min(g, key=lambda v: (abs(v), v < 0)) for g in groups.values()]
+        out[p] = tuple(sorted(reps))
+    return out
 
 
 def int_pool(accepted):
@@ -469,23 +497,27 @@ def int_pool(accepted):
 # Hypothesis strategies
 
 
-def args_strategy(target, cid, cls=None, path_prefix=(), exclude_ctors=frozenset()):
+def args_strategy(target, cid, cls=None, path_prefix=(), exclude_ctors=frozenset(), canonical=False, reg_filter=None):
     """Strategy for the argument descriptions of one class (recursive for constructors).
-    `exclude_ctors`: names of constructor alternatives that must not be drawn."""
+    `exclude_ctors`: names of constructor alternatives that must not be drawn.
+    `canonical`: draw int operands only from the alias-free representatives (probe_reps) and the
+    interval they span.  `reg_filter(register class, ids) -> ids` restricts register operands."""
     from hypothesis import strategies as st
 
     top = class_by_id(target, cid)
     cls = cls or top
-    pr = probe(target, cid)
+    pr = probe_reps(target, cid) if canonical else probe(target, cid)
     parts = []
     for i, fa in enumerate(cls.syntax.formal_arguments):
         k = kind_of(fa._cls)
         if k == "reg":
             names = list(reg_ids(fa._cls)[0])
+            if reg_filter is not None:
+                names = list(reg_filter(fa._cls, names)) or names
             parts.append(st.sampled_from(names).map(lambda n: ["r", n]))
         elif k == "int":
             acc = pr.get(path_prefix + (i,), ())
-            pool = int_pool(acc)
+            pool = acc if canonical and acc else int_pool(acc)
             if acc:
                 lo, hi = acc[0], acc[-1]
                 s = st.one_of(st.sampled_from(acc), st.integers(lo, hi), st.sampled_from(pool))
@@ -503,7 +535,7 @@ def args_strategy(target, cid, cls=None, path_prefix=(), exclude_ctors=frozenset
                 if not sub.syntax or sub.__name__ in exclude_ctors:
                     continue
                 alts.append(
-                    args_strategy(target, cid, sub, path_prefix + (i, sub.__name__), exclude_ctors).map(
+                    args_strategy(target, cid, sub, path_prefix + (i, sub.__name__), exclude_ctors, canonical, reg_filter).map(
                         lambda a, n=sub.__name__: ["c", n, a]
                     )
                 )
